@@ -231,40 +231,60 @@ def rule_I3(ctx, rule: str = "I3") -> None:
                 ctx.proved(rule, f"{q}:lookup", mod.loc(asg), f"table {t} first, then {fb}")
     if table_attr is None:
         return
-    # table construction: for field in <all fields>: for casing in (<casings>): T[KEY] = field
-    fills = []
-    for loop in [n for n in ast.walk(init) if isinstance(n, ast.For)]:
-        for inner in [n for n in ast.walk(loop) if isinstance(n, ast.For) and n is not loop]:
-            if not isinstance(inner.iter, (ast.Tuple, ast.List)):
-                continue
-            for c in ast.walk(inner):
-                keyexpr = None
-                if isinstance(c, ast.Call) and isinstance(c.func, ast.Attribute) and c.func.attr == "setdefault" and len(c.args) == 2:
-                    keyexpr, tgt, val = c.args[0], c.func.value, c.args[1]
-                elif isinstance(c, ast.Assign) and isinstance(c.targets[0], ast.Subscript):
-                    keyexpr, tgt, val = c.targets[0].slice, c.targets[0].value, c.value
-                if keyexpr is not None and isinstance(loop.target, ast.Name) and isinstance(inner.target, ast.Name) and ast.unparse(val) == loop.target.id:
-                    fills.append((ast.unparse(tgt), _norm_key_expr(keyexpr, inner.target.id, loop.target.id), sorted(ast.unparse(e) for e in inner.iter.elts), ast.unparse(loop.iter), c))
+    # table construction in __init__ (the table has to be complete before the first from_dict, which may precede any to_dict):
+    # fills `T[KEY] = field` / `T.setdefault(KEY, field)` inside `for field in <all fields>`, the casing either a loop
+    # variable over a literal tuple or written out
     assigned = [n for n in ast.walk(init) if isinstance(n, ast.Assign) and isinstance(n.targets[0], ast.Attribute) and n.targets[0].attr == table_attr]
-    src_var = ast.unparse(assigned[0].value) if assigned else None
-    fills = [f for f in fills if f[0] == src_var]
-    if not fills:
-        ctx.inconclusive(rule, "key-table:construction", f"construction of {table_attr} not recognised", mod.loc(init))
+    if not assigned:
+        ctx.refuted(rule, "key-table:construction", "not-built-at-construction", mod.loc(init),
+                    f"{table_attr} is not built when the class metadata is constructed: from_dict on a class whose objects were not serialised before cannot find the emitted keys")
         return
-    tgt, kexpr, cas, dom, node = fills[0]
+    src_var = ast.unparse(assigned[0].value)
+    fills = []     # (normalised key expr with $casing/$field, casing text, domain text, node)
+    for loop in [n for n in ast.walk(init) if isinstance(n, ast.For) and isinstance(n.target, ast.Name)]:
+        for c in ast.walk(loop):
+            keyexpr = None
+            if isinstance(c, ast.Call) and isinstance(c.func, ast.Attribute) and c.func.attr == "setdefault" and len(c.args) == 2:
+                keyexpr, tgt, val = c.args[0], c.func.value, c.args[1]
+            elif isinstance(c, ast.Assign) and isinstance(c.targets[0], ast.Subscript):
+                keyexpr, tgt, val = c.targets[0].slice, c.targets[0].value, c.value
+            if keyexpr is None or ast.unparse(tgt) != src_var or ast.unparse(val) != loop.target.id:
+                continue
+            # which casing function is applied to the field name in the key?
+            inner = next((n for n in ast.walk(loop) if isinstance(n, ast.For) and n is not loop and isinstance(n.target, ast.Name) and isinstance(n.iter, (ast.Tuple, ast.List))
+                          and c in list(ast.walk(n))), None)
+            applied = [x for x in ast.walk(keyexpr) if isinstance(x, ast.Call) and len(x.args) == 1 and ast.unparse(x.args[0]) == loop.target.id]
+            for call in applied:
+                f = call.func
+                if inner is not None and isinstance(f, ast.Name) and f.id == inner.target.id:
+                    for e in inner.iter.elts:
+                        fills.append((_norm_key_expr(keyexpr, inner.target.id, loop.target.id), ast.unparse(e), ast.unparse(loop.iter), c))
+                else:
+                    import copy
+                    ke = copy.deepcopy(keyexpr)
+                    for x in ast.walk(ke):
+                        if isinstance(x, ast.Call) and ast.dump(x.func) == ast.dump(f):
+                            x.func = ast.Name("$casing", ast.Load())
+                    fills.append((_norm_key_expr(ke, "$casing", loop.target.id), ast.unparse(f), ast.unparse(loop.iter), c))
     all_fields = {ast.unparse(n.targets[0].value) for n in ast.walk(init) if isinstance(n, ast.Assign) and isinstance(n.targets[0], ast.Subscript)
                   and ast.unparse(n.targets[0].slice) == "field.name" and ast.unparse(n.value) == "meta"}
+    node = fills[0][3] if fills else assigned[0]
     for q, e in emit.items():
         name = f"{q}:keys-in-table"
-        if e != kexpr:
-            ctx.refuted(rule, name, f"{e}!={kexpr}", mod.loc(node),
-                        f"{q} emits the key {e} but the lookup table is built from {kexpr}: emitted keys are not found again")
-        elif not set(casings) <= set(cas):
-            ctx.refuted(rule, name, f"casings {cas}", mod.loc(node), f"the table covers the casings {cas} but to_dict accepts {casings}")
-        elif dom not in all_fields:
-            ctx.refuted(rule, name, f"domain {dom}", mod.loc(node), f"the table is built over {dom}, which is not the set of all fields ({sorted(all_fields)})")
+        covered = sorted({cas for k, cas, dom, _ in fills if k == e and dom in all_fields})
+        if not fills:
+            ctx.refuted(rule, name, "no-cased-keys-at-construction", mod.loc(node),
+                        f"when the class metadata is built, {table_attr} receives no cased keys (only what {src_var} holds); {q} emits {e}. Keys recorded later (e.g. while serialising) "
+                        "are missing for a process that parses before it serialises", "a consumer calling M.from_json on text produced elsewhere")
+        elif not any(k == e for k, _, _, _ in fills):
+            ctx.refuted(rule, name, f"{e}!={fills[0][0]}", mod.loc(node),
+                        f"{q} emits the key {e} but the lookup table is built from {fills[0][0]}: emitted keys are not found again")
+        elif not set(casings) <= set(covered):
+            ctx.refuted(rule, name, f"casings {covered}", mod.loc(node),
+                        f"the table covers the casings {covered} but to_dict accepts {casings}: keys emitted under the other casing are mapped back by the lossy fallback "
+                        "(md5sum -> 'md5_sum' -> field 'md5_sum'?)", "M.from_dict(m.to_dict(casing=Casing.SNAKE)) for a field named md5sum")
         else:
-            ctx.proved(rule, name, mod.loc(node), f"key {e} for casing in {cas} over {dom}")
+            ctx.proved(rule, name, mod.loc(node), f"key {e} for casing in {covered} over the set of all fields")
     # fallback = the plugin's proto-name -> Python-name function
     nam = ctx.repo.mod(M_NAMING)
     pf = nam.func("pythonize_field_name")
